@@ -21,7 +21,7 @@ import (
 )
 
 const rule = "cases = (router after a random mutation history vs fresh router filled in a random permutation, same registered set and options) x probes derived from every pattern " +
-	"of the pool (instantiated, perturbed, all methods + OPTIONS), incl. the identity of the handler that served (must be the currently registered one); a third of the histories are directed transaction stories; plus every permutation of sets of <=5 routes from small pools; " +
+	"of the pool (instantiated, perturbed, all methods + OPTIONS), incl. the identity of the handler that served (must be the currently registered one); a third of the histories are directed transaction stories; plus, for every subset of 2..4 routes of the small pools, every element deleted after two insertion orders compared with a fresh router holding the rest; plus every permutation of sets of <=5 routes from small pools; " +
 	"distinct by (final set, option set, probe); non-trivial when the final set has >= 2 routes for the probe's method or the probe is unserved"
 
 type caseFile struct {
